@@ -20,7 +20,7 @@ theorem inv_th_set (s : St) (a : Nat) (old new : TS) (o : Owner) (hi : Inv s) (h
   obtain ⟨hc, hv⟩ := hi
   have hlive : liveRefs { s with th := s.th.set a new, owner := o } = liveRefs s := liveRefs_set s a old new h hl
   refine ⟨⟨?_, hc.chain, hc.nonceLe, hc.nonceLt, hc.lastCh, hc.resCur, hc.curSome, hc.curNone, hc.tgtVal, hc.tgtErr,
-    hc.relFin, hc.storedFin, hc.noLeak, hc.finSt, hc.resSt, ?_, hc.rcFresh, hc.panicF, hc.pendNE, hc.deadC⟩,
+    hc.relFin, hc.storedFin, hc.noLeak, hc.finSt, hc.resSt, ?_, hc.rcFresh, hc.panicF, hc.pendNE, hc.deadC, hc.drainC⟩,
     ⟨?_, ?_, ?_⟩⟩
   · intro hcf
     have := (hc.pre hcf).1
@@ -41,7 +41,7 @@ theorem inv_th_append (s : St) (new : TS) (hi : Inv s) (hcf : s.cfgd = true) (hl
   have hlive : liveRefs { s with th := s.th ++ [new] } = liveRefs s := by
     simp [liveRefs, List.countP_append, hl]
   refine ⟨⟨?_, hc.chain, hc.nonceLe, hc.nonceLt, hc.lastCh, hc.resCur, hc.curSome, hc.curNone, hc.tgtVal, hc.tgtErr,
-    hc.relFin, hc.storedFin, hc.noLeak, hc.finSt, hc.resSt, ?_, hc.rcFresh, hc.panicF, hc.pendNE, hc.deadC⟩,
+    hc.relFin, hc.storedFin, hc.noLeak, hc.finSt, hc.resSt, ?_, hc.rcFresh, hc.panicF, hc.pendNE, hc.deadC, hc.drainC⟩,
     ⟨?_, ?_, ?_⟩⟩
   · intro h; simp [hcf] at h
   · intro b k pc f sf t hb hk
@@ -59,7 +59,7 @@ theorem inv_misc (s : St) (hi : Inv s) (o : Owner) (n : Nat) (rr : List Nat) (p 
     (hp : ∀ b ∈ p, b ≠ []) : Inv { s with owner := o, ninv := n, relRuns := rr, pend := p } := by
   obtain ⟨hc, hv⟩ := hi
   exact ⟨⟨hc.pre, hc.chain, hc.nonceLe, hc.nonceLt, hc.lastCh, hc.resCur, hc.curSome, hc.curNone, hc.tgtVal, hc.tgtErr,
-    hc.relFin, hc.storedFin, hc.noLeak, hc.finSt, hc.resSt, hc.told, hc.rcFresh, hc.panicF, hp, hc.deadC⟩,
+    hc.relFin, hc.storedFin, hc.noLeak, hc.finSt, hc.resSt, hc.told, hc.rcFresh, hc.panicF, hp, hc.deadC, hc.drainC⟩,
     ⟨hv.fresh, hv.prog, hv.kept⟩⟩
 
 /-- a reference entry changes only its program counter / once-flag / self flag -/
@@ -94,8 +94,8 @@ theorem step_inv_threads (s s' : St) (e : Ev) (hi : Inv s) (hs : step s e = some
   case invRelease b r =>
     simp only [step] at hs; split at hs <;> try simp at hs
     split at hs <;> try simp at hs
-    obtain ⟨_, rfl⟩ := hs
-    rename_i h _
+    subst hs
+    rename_i h
     have hcf : s.cfgd = true := by
       cases hcf : s.cfgd
       · have := (hi.core.pre hcf).1; simp [this] at h
@@ -118,9 +118,13 @@ theorem step_inv_threads (s s' : St) (e : Ev) (hi : Inv s) (hs : step s e = some
     obtain ⟨_, rfl⟩ := hs
     exact inv_th_set s b _ (.rel r .retd) s.owner hi hb rfl (by intro _ _ _ _ _ he; cases he)
   case selfRelSwap a =>
-    simp only [step] at hs; split at hs <;> simp at hs; subst hs
-    rename_i live told h
-    exact inv_ref_upd s a .hook _ _ live _ _ _ _ told s.owner hi h
+    simp only [step] at hs; split at hs <;> try simp at hs
+    rename_i pc live flag self told h
+    obtain ⟨_, hs⟩ := hs
+    split at hs <;> simp at hs <;> subst hs
+    · exact hi
+    · have := inv_ref_upd s a .hook pc pc live flag true self true told s.owner hi h
+      exact this
   case invSetCtx a c cl =>
     simp only [step] at hs; split at hs <;> simp at hs; subst hs
     rename_i h; exact inv_th_append s _ hi h.1 rfl
@@ -158,7 +162,8 @@ theorem inv_setCall (s : St) (i : Nat) (c c' : Call) (n : Nat) (hi : Inv s) (h :
     (e6 : c.fin = true → c'.fin = true) (e7 : c.res.isSome ∨ c.fin = true → c'.res = c.res)
     (hfin : (c'.fin = true → c'.ci.st = .returned ∨ c'.ci.st = .closed) ∧ (c'.ci.st = .closed → c'.fin = true))
     (hres : c'.res.isSome → c'.ci.st = .returned ∨ c'.ci.st = .closed)
-    (hnl : c'.fin = true → c.fin = false → c'.res = none) :
+    (hnl : c'.fin = true → c.fin = false → c'.res = none)
+    (hdr : (c'.ci.st = .draining ∨ (c'.fin = true ∧ c'.res = none)) → c'.ci.cancelled = true) :
     Inv { setCall s i c' with ninv := n } := by
   obtain ⟨hc, hv⟩ := hi
   have hlt := lt_of_getElem? h
@@ -175,7 +180,7 @@ theorem inv_setCall (s : St) (i : Nat) (c c' : Call) (n : Nat) (hi : Inv s) (h :
     · exact ⟨c, hj ▸ h, hx ▸ e1.symm⟩
     · exact ⟨x, hx, rfl⟩
   refine ⟨⟨?_, hch, ?_, ?_, ?_, hc.resCur, ?_, hc.curNone, hc.tgtVal, hc.tgtErr, ?_, ?_, ?_, ?_, ?_, hc.told, ?_,
-    hc.panicF, hc.pendNE, ?_⟩, ⟨?_, ?_, hv.kept⟩⟩
+    hc.panicF, hc.pendNE, ?_, ?_⟩, ⟨?_, ?_, hv.kept⟩⟩
   · intro hcf
     have := (hc.pre hcf).2; simp [this] at h
   · intro j x hx
@@ -233,6 +238,10 @@ theorem inv_setCall (s : St) (i : Nat) (c c' : Call) (n : Nat) (hi : Inv s) (h :
     rcases hget j x hx with ⟨_, hx⟩ | ⟨_, hx⟩
     · rw [hx] at hd ⊢; rw [e3]; rw [e2] at hd; exact hc.deadC i c h hd
     · exact hc.deadC j x hx hd
+  · intro j x hx hd
+    rcases hget j x hx with ⟨_, hx⟩ | ⟨_, hx⟩
+    · rw [hx] at hd ⊢; exact hdr hd
+    · exact hc.drainC j x hx hd
   · intro j x hx hn
     rcases hget j x hx with ⟨hj, hx⟩ | ⟨_, hx⟩
     · rw [hx] at hn ⊢; rw [hj]
@@ -283,11 +292,12 @@ theorem step_inv_calls (s s' : St) (e : Ev) (hi : Inv s) (hs : step s e = some s
       cases hcr : c.res with
       | none => rfl
       | some r => have := hr (by simp [hcr]); simp [hw] at this
-    refine inv_setCall s i c _ _ hi h ?_ rfl rfl rfl rfl rfl (by simp) (by simp) ?_ ?_ ?_
+    refine inv_setCall s i c _ _ hi h ?_ rfl rfl rfl rfl rfl (by simp) (by simp) ?_ ?_ ?_ ?_
     · refine chain_step_set s i c _ .running (.proceed i) hi.core.chain h rfl ?_
       simp [Chain.step, chain_get s i c h, hw, predClosed_eq, hp]
     · simp [hnf]
     · simp [hrn]
+    · simp [hnf]
     · simp [hnf]
   case giveUp i =>
     simp only [step] at hs; split at hs <;> try simp at hs
@@ -304,13 +314,14 @@ theorem step_inv_calls (s s' : St) (e : Ev) (hi : Inv s) (hs : step s e = some s
       | none => rfl
       | some r => have := hr (by simp [hcr]); simp [hw] at this
     have := inv_setCall s i c { c with ci := { c.ci with st := .draining } } s.ninv hi h ?_ rfl rfl rfl rfl rfl
-      (by simp) (by simp) ?_ ?_ ?_
+      (by simp) (by simp) ?_ ?_ ?_ ?_
     · exact this
     · refine chain_step_set s i c _ .draining (.giveUp i) hi.core.chain h rfl ?_
       simp [Chain.step, chain_get s i c h, hw, hcn]
     · simp [hnf]
     · simp [hrn]
     · simp [hnf]
+    · simp [hcn]
   case drained i =>
     simp only [step] at hs; split at hs <;> try simp at hs
     rename_i c h
@@ -322,13 +333,14 @@ theorem step_inv_calls (s s' : St) (e : Ev) (hi : Inv s) (hs : step s e = some s
       | none => rfl
       | some r => have := hr (by simp [hcr]); simp [hw] at this
     have := inv_setCall s i c { c with ci := { c.ci with st := .returned }, fin := true } s.ninv hi h ?_ rfl rfl rfl rfl rfl
-      (by simp) (by simp) ?_ ?_ ?_
+      (by simp) (by simp) ?_ ?_ ?_ ?_
     · exact this
     · refine chain_step_set s i c _ .returned (.drained i) hi.core.chain h rfl ?_
       simp [Chain.step, chain_get s i c h, hw, predClosed_eq, hp]
     · simp
     · simp
     · simp; intro _; exact hrn
+    · intro _; exact hi.core.drainC i c h (Or.inl hw)
   case leave i k val hasRel err =>
     simp only [step] at hs; split at hs <;> try simp at hs
     rename_i c h
@@ -344,25 +356,27 @@ theorem step_inv_calls (s s' : St) (e : Ev) (hi : Inv s) (hs : step s e = some s
       | none => rfl
       | some r => have := hr (by simp [hcr]); simp [hw] at this
     have := inv_setCall s i c { c with ci := { c.ci with st := .returned }, res := some (val, hasRel, err) } s.ninv hi h ?_
-      rfl rfl rfl rfl rfl (by simp) (by simp [hrn, hnf]) ?_ ?_ ?_
+      rfl rfl rfl rfl rfl (by simp) (by simp [hrn, hnf]) ?_ ?_ ?_ ?_
     · exact this
     · refine chain_step_set s i c _ .returned (.ret i) hi.core.chain h rfl ?_
       simp [Chain.step, chain_get s i c h, hw]
     · simp
     · simp
     · simp [hnf]
+    · simp [hnf]
   case done i =>
     simp only [step] at hs; split at hs <;> try simp at hs
     rename_i c h
     obtain ⟨⟨hw, hfin, _⟩, rfl⟩ := hs
     have := inv_setCall s i c { c with ci := { c.ci with st := .closed } } s.ninv hi h ?_
-      rfl rfl rfl rfl rfl (by simp) (by simp) ?_ ?_ ?_
+      rfl rfl rfl rfl rfl (by simp) (by simp) ?_ ?_ ?_ ?_
     · exact this
     · refine chain_step_set s i c _ .closed (.close i) hi.core.chain h rfl ?_
       simp [Chain.step, chain_get s i c h, hw]
     · simp [hfin]
     · simp
     · simp [hfin]
+    · simp; intro _ hrn; exact hi.core.drainC i c h (Or.inr ⟨hfin, hrn⟩)
 
 
 /-! ## critical sections -/
@@ -375,7 +389,7 @@ theorem core_upd (s : St) (th' : List TS) (o : Owner) (c : Nat) (hc : Core s) (h
     Core { s with th := th', owner := o, ctx := c } :=
   ⟨by intro h; simp [hcf] at h, hc.chain, hc.nonceLe, hc.nonceLt, hc.lastCh, hc.resCur, hc.curSome, hc.curNone,
    hc.tgtVal, hc.tgtErr, hc.relFin, hc.storedFin, hc.noLeak, hc.finSt, hc.resSt, ht, hc.rcFresh, hc.panicF,
-   hc.pendNE, hc.deadC⟩
+   hc.pendNE, hc.deadC, hc.drainC⟩
 
 theorem cfgd_of_th (s : St) (hc : Core s) (a : Nat) (x : TS) (h : s.th[a]? = some x) : s.cfgd = true := by
   cases hcf : s.cfgd
@@ -413,7 +427,7 @@ theorem step_inv_misc (s s' : St) (e : Ev) (hi : Inv s) (hs : step s e = some s'
     have hres : s.resolved = false := by rw [hc.resCur, hcur]; rfl
     obtain ⟨h1, h2, h3⟩ := hc.curNone hcur
     refine ⟨⟨by simp, hc.chain, hc.nonceLe, hc.nonceLt, hc.lastCh, hc.resCur, hc.curSome, hc.curNone, ?_, ?_,
-      hc.relFin, hc.storedFin, hc.noLeak, hc.finSt, hc.resSt, hc.told, hc.rcFresh, hc.panicF, hc.pendNE, hc.deadC⟩,
+      hc.relFin, hc.storedFin, hc.noLeak, hc.finSt, hc.resSt, hc.told, hc.rcFresh, hc.panicF, hc.pendNE, hc.deadC, hc.drainC⟩,
       ⟨?_, ?_, ?_⟩⟩
     · have := hc.tgtVal; simp [h2] at this ⊢; exact this
     · have := hc.tgtErr; simp [h3] at this ⊢; exact this
@@ -437,7 +451,7 @@ theorem step_inv_misc (s s' : St) (e : Ev) (hi : Inv s) (hs : step s e = some s'
         (y.ci.cancelled = true → x.ci.cancelled = true) ∧ (x.ci.cancelled = true → y.ci.cancelled = true ∨ y.root = c) := by
       intro y; simp only; split <;> simp_all
     refine ⟨⟨?_, ?_, ?_, ?_, ?_, hc.resCur, ?_, hc.curNone, hc.tgtVal, hc.tgtErr, ?_, ?_, ?_, ?_, ?_, hc.told, ?_,
-      hc.panicF, hc.pendNE, ?_⟩, ⟨?_, ?_, hv.kept⟩⟩
+      hc.panicF, hc.pendNE, ?_, ?_⟩, ⟨?_, ?_, hv.kept⟩⟩
     · intro h; have := hc.pre h; simp [this]
     · refine chain_of_pointwise s _ hc.chain rfl (by simp) ?_
       intro j x hx
@@ -493,6 +507,11 @@ theorem step_inv_misc (s s' : St) (e : Ev) (hi : Inv s) (hs : step s e = some s'
       rcases hd with hd | hd
       · simp [hd]
       · exact this.2.2.2.2.2.2.2.2.1 (hc.deadC j y hy (by simpa using hd))
+    · intro j x hx hd
+      obtain ⟨y, hy, rfl⟩ := hget j x hx
+      have := hsame y
+      rw [this.2.2.2.1, this.2.2.2.2.1, this.2.2.2.2.2.1] at hd
+      exact this.2.2.2.2.2.2.2.2.1 (hc.drainC j y hy hd)
     · intro j x hx hn
       obtain ⟨y, hy, rfl⟩ := hget j x hx
       have hy' := hsame y
@@ -532,9 +551,7 @@ theorem step_inv_misc (s s' : St) (e : Ev) (hi : Inv s) (hs : step s e = some s'
       simp at hx
       rcases hx with hx | hx
       · rw [hx]; intro e
-        rcases List.erase_eq_nil_iff.mp e with h1 | h1
-        · exact hb.1 h1
-        · exact hb.2 h1
+        exact hb (List.erase_eq_nil_iff.mp e)
       · exact hne x (by simp [hx])
   case quiesce B =>
     simp only [step] at hs; split at hs <;> simp at hs; subst hs; exact hi
